@@ -74,6 +74,10 @@ pub struct Cfg {
     pub allow_loop_outside: bool,
     /// single-operand expressions and mostly call statements (control-flow skeletons)
     pub simple: bool,
+    /// no f32 / f64 anywhere
+    pub no_floats: bool,
+    /// identifiers that need JSON escaping (finding F12)
+    pub escapes: bool,
     pub fault: FaultMode,
 }
 
@@ -89,6 +93,8 @@ impl Cfg {
             allow_f2_f3: true,
             allow_loop_outside: false,
             simple: false,
+            no_floats: false,
+            escapes: false,
             fault: FaultMode::None,
         }
     }
@@ -170,10 +176,15 @@ impl Gen {
     }
 
     fn prim(&mut self) -> PT {
-        if self.rng.chance(3, 4) {
-            *self.rng.pick(&COMMON_PT)
-        } else {
-            *self.rng.pick(&ALL_PT)
+        loop {
+            let p = if self.rng.chance(3, 4) {
+                *self.rng.pick(&COMMON_PT)
+            } else {
+                *self.rng.pick(&ALL_PT)
+            };
+            if !(self.cfg.no_floats && (p == PT::F32 || p == PT::F64)) {
+                return p;
+            }
         }
     }
 
@@ -394,6 +405,9 @@ impl Gen {
     }
 
     fn fresh_value_name(&mut self) -> String {
+        if self.cfg.escapes && self.rng.chance(1, 3) {
+            return ["q\"x", "b\\s", "t\tb"][self.rng.below(3)].to_string();
+        }
         self.rng.pick(VALUE_NAMES).to_string()
     }
 
@@ -920,9 +934,18 @@ pub fn gen_fault1(seed: u64, cfg: &Cfg, max_variants: usize) -> (Prog, Vec<(Stri
     (base, out)
 }
 
+pub fn gen_wild_cfg(seed: u64, cfg: &Cfg) -> (Prog, Vec<String>) {
+    let mut c = cfg.clone();
+    c.fault = FaultMode::Noise(1, 30);
+    let mut g = Gen::new(seed, c);
+    let p = g.program();
+    (p, g.faults)
+}
+
 pub fn gen_wild(seed: u64, cfg: &Cfg) -> (Prog, Vec<String>) {
     let mut c = cfg.clone();
-    c.fault = FaultMode::Noise(1, 12);
+    // half of the programs carry few faults, half many
+    c.fault = if seed % 2 == 0 { FaultMode::Noise(1, 12) } else { FaultMode::Noise(1, 40) };
     c.arrays = true;
     let mut g = Gen::new(seed, c);
     let p = g.program();
